@@ -37,6 +37,8 @@ PAIRS = [
     ("miss/map-key", "map[string]int", "map[N]int"),
     ("miss/named-vs-underlying", "int", "N"),
     ("miss/same-name-other-pkg", "N", "N"),
+    ("miss/embedded-vs-field-spelled-like-type", "struct{ q.N }", "struct{ N N }"),
+    ("miss/embedded-ptr-vs-field-spelled-like-type", "struct{ *q.N }", "struct{ N *N }"),
     ("miss/generic-arg", "q.G[int]", "G[int32]"),
     ("miss/generic-arg-named", "q.G[int]", "G[N]"),
     ("miss/iface-unexported-method", "interface{ m() }", "interface{ m() }"),
